@@ -23,8 +23,12 @@ pub type VaultId = Uuid;
 pub struct VaultFlags { pub b: u64 }
 pub spec const VAULT_FLAGS_ALL: u64 = 0x3ff;
 impl VaultFlags {
+    /// Assumed type invariant: a VaultFlags value holds defined bits only
+    /// (bitflags constructors other than from_bits_retain keep this;
+    /// from_bits_retain is not used in /repo — checked by the assumption scan).
+    #[verifier::external_body]
     pub fn bits(&self) -> (r: u64)
-        ensures r == self.b,
+        ensures r == self.b, (r & !VAULT_FLAGS_ALL) == 0,
     { self.b }
     #[verifier::external_body]
     pub fn from_bits(x: u64) -> (r: Option<VaultFlags>)
@@ -71,6 +75,10 @@ pub open spec fn instant_add(i: Instant, nanos: int) -> Instant {
     Instant { secs: i.secs + total / 1_000_000_000, nanos: total % 1_000_000_000 }
 }
 impl OffsetDateTime {
+    #[verifier::external_body]
+    pub fn now_utc() -> (r: OffsetDateTime)
+        ensures instant_wf(r@),
+    { unimplemented!() }
     /// Err(ComponentRange) outside the supported range
     #[verifier::external_body]
     pub fn from_unix_timestamp(s: i64) -> (r: core::result::Result<OffsetDateTime, ComponentRange>)
@@ -86,15 +94,11 @@ impl OffsetDateTime {
     pub fn nanosecond(self) -> (r: u32)
         ensures r == self@.nanos, instant_wf(self@),
     { unimplemented!() }
-    /// `odt + duration` (impl Add<Duration> for OffsetDateTime): the crate
-    /// panics ("resulting value is out of range") when the sum leaves the
-    /// supported range, hence the precondition.  Written as a method because
-    /// the installed Verus rejects `requires` on trait impls; rule R12b
-    /// rewrites `a + b` to `a.add_duration(b)` at the declared sites.
+    /// checked_add: None when the sum leaves the supported range
     #[verifier::external_body]
-    pub fn add_duration(self, d: Duration) -> (r: OffsetDateTime)
-        requires
-            instant_wf(self@) ==> instant_wf(instant_add(self@, d@)),
-        ensures r@ == instant_add(self@, d@),
+    pub fn checked_add(self, d: Duration) -> (r: Option<OffsetDateTime>)
+        ensures
+            instant_wf(self@) ==> (r.is_some() <==> instant_wf(instant_add(self@, d@))),
+            r.is_some() ==> r.unwrap()@ == instant_add(self@, d@),
     { unimplemented!() }
 }
